@@ -108,8 +108,12 @@ def gen_files(r, txn, variants=()):
                 val = base_f.get(col, vf.get(col))
                 if col and val is not None and '"' not in val:
                     rows.insert(0, (r.choice([f'field.{col} == "{val}"', f'field.{col} == "{val}" and amount == amount']), 'Col', 'ByColumn', '', ''))
+                    colinfo = (col, val)
                     break
         files[name] = {'k': 'load', 'kind': 'csv', 'name': name, 'text': GR.render_csv_rules(rows)}
+        if 'colinfo' in dir() and colinfo:
+            files[name]['col'] = list(colinfo)
+        colinfo = None
     return files
 
 
@@ -150,6 +154,15 @@ def gen_sequence(r, n_ops):
         e = r.choice(pair) if r.random() < 0.7 else r.choice(r.choice(COLLIDE))
         return {'k': 'eval', 'expr': e, 'txn': r.choice(txns), 'sources': None}
     shape = r.random()
+    colfiles = [n for n in names if files[n].get('col')]
+    if colfiles and shape < 0.3:
+        # directed: a legacy file with a cell that reads a captured column; a line WITHOUT the column, then lines WITH it, then without
+        n0 = r.choice(colfiles)
+        col, val = files[n0]['col']
+        base = RC.jtxn(txn)
+        with_col = dict(base, field=dict(base.get('field') or {}, **{col: val}))
+        without = dict(base, field={k: v for k, v in (base.get('field') or {}).items() if k != col} or None)
+        return [files[n0], classify(without), classify(with_col), classify(without), classify(with_col)]
     if shape < 0.2:
         # directed: the same function on the same text with one argument changed, back and forth on ONE statement line
         t = r.choice(txns[:2])
